@@ -31,7 +31,7 @@ Section Crash.
              | _ => []
              end) ++ crash_states nf nd (exec_op nf nd s o) rest).
     intros [<-|H]; [left; reflexivity|]. apply in_app_or in H as [H|H]; [|right; right; exact H].
-    destruct o as [f|f|a b]; [destruct H| |destruct H]. apply in_map_iff in H as (k & <- & _). right. left. eauto.
+    destruct o as [f|f|a b|f]; [destruct H| |destruct H|destruct H]. apply in_map_iff in H as (k & <- & _). right. left. eauto.
   Qed.
 
   Theorem crash_safe prog : forall sf sd s, discipline sf sd prog = true -> fin_ok s -> tmp_inv sf sd s ->
@@ -42,7 +42,7 @@ Section Crash.
     - apply crash_states_cons in Hc as [->|[(f & v & -> & ->)|Hc]]; [assumption| |].
       + (* death inside a write: only a temporary file is touched *)
         apply fin_ok_fset_tmp; [|assumption]. destruct f; cbn [discipline] in Hd; try discriminate; reflexivity.
-      + destruct Htmp as [H1 H2]. destruct o as [f|f|a b]; cbn [discipline] in Hd.
+      + destruct Htmp as [H1 H2]. destruct o as [f|f|a b|f]; cbn [discipline] in Hd.
         * destruct f; try discriminate.
           -- apply (IH TCreated sd (exec_op nf nd s (FCreate TmpFreq))); [exact Hd|apply fin_ok_fset_tmp; [reflexivity|assumption]| |exact Hc].
              split; intro E; [discriminate|]. cbn [exec_op]. rewrite fset_other by reflexivity. auto.
@@ -68,6 +68,12 @@ Section Crash.
                 ** rewrite !fset_other by reflexivity. exact Hf.
                 ** right. rewrite fset_other by reflexivity. rewrite fset_same. exact H2.
              ++ split; intro E; [|discriminate]. cbn [exec_op]. rewrite !fset_other by reflexivity. auto.
+        * (* removing a temporary file *)
+          destruct f; try discriminate.
+          -- apply (IH TNone sd (exec_op nf nd s (FRemove TmpFreq))); [exact Hd|apply fin_ok_fset_tmp; [reflexivity|assumption]| |exact Hc].
+             split; intro E; [discriminate|]. cbn [exec_op]. rewrite fset_other by reflexivity. auto.
+          -- apply (IH sf TNone (exec_op nf nd s (FRemove TmpDic))); [exact Hd|apply fin_ok_fset_tmp; [reflexivity|assumption]| |exact Hc].
+             split; intro E; [|discriminate]. cbn [exec_op]. rewrite fset_other by reflexivity. auto.
   Qed.
 
   (** from the files as they were, every crash state of a disciplined save shows each final file old or new *)
